@@ -40,6 +40,7 @@ def cases(tier, seed):
     for nt in (3, 4):
         for sch in ((2, 1, 2), (3, 1, 2), (3, 3, 1), (4, 2, 1)) if tier == 'quick' else ((2, 1, 2), (3, 1, 2), (3, 3, 1), (4, 2, 1), (3, 1, 2), (5, 5, 1)):
             out.append(('e3/nt=%d/%s' % (nt, 'x'.join(map(str, sch))), ('e3', nt, sch)))
+    out.append(('SCML/int_points/array', ('intpts', seed)))
     for dsn in (['S2', 'S3u', 'S5'] if tier == 'quick' else data.THOROUGH):
         for name, bases in (('SCML', ['triplet_diffs', 'array']), ('SCML_Supervised', ['triplet_diffs', 'lda', 'array'])):
             for basis in bases:
@@ -50,6 +51,7 @@ def cases(tier, seed):
 
 def cost(spec):
     return 3 if spec[0] == 'fit' else 1
+
 
 
 class Spy(object):
@@ -146,6 +148,39 @@ def run_case(spec):
                     stats={'e3_complete_trees': int(st['complete']), 'e3_distinct_weight_outcomes': len(outcomes)},
                     sample={'kind': 'all draw programs', 'triplets': nt, 'max_iter': mi, 'output_iter': oi, 'batch_size': bs,
                             'programs': evals, 'distinct_weight_outcomes': len(outcomes)})
+    if spec[0] == 'intpts':
+        # integer-typed points (int64 triplets / int64 X) with a REAL-valued basis: same M as for the float-typed copy
+        ds = data.scaled(data.dataset('S3u'), 64.0)
+        d = ds.d
+        B = np.vstack([np.eye(d), np.array([[0.6, 0.8, 0.0], [0.5, -0.25, 0.75], [0.125, 0.5, -0.625]])])
+        for mi, oi, bs in ((120, 40, 4), (60, 60, 3)):
+            for seed in (0, 1):
+                kw = dict(basis=B.copy(), beta=1e-3, gamma=5e-2, max_iter=mi, output_iter=oi, batch_size=bs, random_state=seed)
+                Tf = ds.trip.copy()
+                Ti = Tf.astype(np.int64)
+                assert np.array_equal(Tf, Ti)
+                res = {}
+                for lab, T in (('float64', Tf), ('int64', Ti)):
+                    est = ml.SCML(**kw)
+                    with Spy() as spy, warnings.catch_warnings(record=True) as wr:
+                        warnings.simplefilter('always')
+                        est.fit(T)
+                    basis, w = spy.calls[-1]
+                    draws = np.random.RandomState(seed).randint(0, len(T), size=(mi, bs))
+                    if not np.array_equal(basis, B):
+                        viol.append(V('SCML.fit', 'basis_not_as_given', 'with %s points the basis in use differs from the array supplied' % lab, [lab]))
+                    a, nt = judge('SCML.fit', est, B, w, Tf, draws, 1e-3, 5e-2, oi, bs, ['int_points', lab], viol, wr, d)
+                    amb += int(a)
+                    res[lab] = est.get_mahalanobis_matrix()
+                    evals += 1
+                    states += 1
+                    trans += 1
+                    if nt:
+                        sigs.add(('intpts', lab, mi, seed))
+                if np.abs(res['float64'] - res['int64']).max() > 1e-9 * max(np.abs(res['float64']).max(), 1e-300):
+                    viol.append(V('SCML.fit', 'int_points_differ', 'integer-typed and float-typed copies of the same triplets give different metrics', ['int_points']))
+        return dict(evals=evals, sigs=sigs, viol=viol, states=states, transitions=trans, ambiguous=amb,
+                    sample={'kind': 'integer-typed points with a real-valued basis', 'dataset': ds.name})
     _, name, dsn, basis_opt, bi, seed0 = spec
     ds = data.dataset('R', seed0) if dsn == 'R' else data.dataset(dsn)
     d = ds.d
